@@ -1,7 +1,7 @@
 ----------------------------- MODULE TRACE_Repl -----------------------------
 (* Validation of system traces recorded from a real primary and real replicas (C13 system clause, C14, C15).
    The harness logs, in the order of its single driver:
-     reset | w(op) wret | flush | join | rstop | rrestart(rcount) | cwr(refused) | s(st, x, rep, cnt) | quiesce | conv(pst) | noconv
+     reset | w(op) wret | flush | join | rstop | rrestart(rcount) | cut | linkup | cwr(refused) | s(st, x, rep, cnt) | quiesce | conv(pst) | noconv
      fault(mode) | inv(c, op) ret(c, op) | ops(c, n) | hang(c, op) | topo(dropped) | hconv(ok) | end | error
    w is logged BEFORE the primary call (primary order = order of w events: one driver), s is one atomic sample of the
    replica's whole state (st), the number of keys outside the model (x) and the applied sequence number the replica
@@ -59,7 +59,7 @@ TW == /\ Ev("w") /\ wr = 0
       /\ ents' = ents \o [i \in 1..Len(Trace[l].op) |-> [k |-> Trace[l].op[i].k, v |-> Trace[l].op[i].v, seq |-> nseq]]
       /\ nseq' = nseq + 1 /\ wr' = 1 /\ UNCHANGED <<base, lo, rep, stalled, extra, busy>>
 TWRet == Ev("wret") /\ wr = 1 /\ wr' = 0 /\ UNCHANGED <<ents, nseq, base, lo, rep, stalled, extra, busy>>
-TPlain == (Ev("flush") \/ Ev("join") \/ Ev("rstop")) /\ UNCHANGED <<ents, nseq, base, lo, rep, wr, stalled, extra, busy>>
+TPlain == (Ev("flush") \/ Ev("join") \/ Ev("rstop") \/ Ev("cut") \/ Ev("linkup")) /\ UNCHANGED <<ents, nseq, base, lo, rep, wr, stalled, extra, busy>>
 \* intended design: a restarted replica keeps what it applied and its position
 TRestart == Ev("rrestart") /\ UNCHANGED <<ents, nseq, base, lo, rep, wr, stalled, extra, busy>>
 \* KNOWN FINDING KF_C13_restart_from_one: Manager.startReplica starts every replica at sequence 0, so after a restart
